@@ -17,7 +17,18 @@ SPEC = dict(
          "such file names; content and file-name substring queries, case sensitive and insensitive, LineMatches and ChunkMatches: the "
          "ranges must be the scanning oracle's leftmost non-overlapping occurrences and every document with an occurrence must be reported; "
          "the match starts also go through findOffset (G_find). "
-         "per iteration: 6 generated candidate sets (content/file-name mixes, equal offsets, nested, overlapping, empty) through "
+         "once per run, word-boundary regexps \\bLIT\\b END TO END through Search: 31 literals of every first/last byte class combination "
+         "(word..word get, non-word..word .get ->next $x, word..non-word get( x. next->, non-word..non-word . -> (a) and literals holding a "
+         "newline) against 25 document shapes (LIT, LITLIT, LITLITLIT, LITLITLITLIT, runs at the start / end of the text, one word / one "
+         "non-word byte in front, behind and between two occurrences, upper-case variants, truncated occurrences, overlapping occurrences), "
+         "as contents and as file names, case sensitive (wordMatchTree fast path) and insensitive (regexp engine), LineMatches and "
+         "ChunkMatches: the reported ranges must be exactly stdlib regexp FindAllIndex on the text (in line mode broken on newlines) and every "
+         "document with a match must be reported; the real wordMatchTree.matches on every document's bytes (G_word), the reported chunk-mode "
+         "ranges against gather(word_cands) of the model (G_wordsearch), all 256 byte values through the scan loop's class test. "
+         "per iteration: one generated literal (first and last byte class drawn independently, 1-5 bytes over a small alphabet incl. "
+         "newline and multi-byte runes) against 4 random token sequences (the literal x4, separators of both classes, prefixes/suffixes of "
+         "the literal, its upper-case form) with the same oracle (30%: also as file names); "
+         "6 generated candidate sets (content/file-name mixes, equal offsets, nested, overlapping, empty) through "
          "the real gatherMatches on an or-tree of a substring and a regexp atom; 3 candidate lists (40% lengthened, 30% newline-heavy "
          "contents) through breakMatchesOnNewlines; a generated sampling table through "
          "makeRuneOffsetMap + 4 lookups (incl. offsets on multiples of 100); a 1-4 document shard of runs of 1..4-byte runes "
@@ -25,14 +36,18 @@ SPEC = dict(
          "content and 6 on file names (offsets on / just before multiples of runeOffsetFrequency); 4 single-substring / "
          "or-of-substrings / single-regexp (incl. matches continuing after a newline) queries end-to-end in LineMatches and "
          "ChunkMatches mode. non-trivial = candidates dropped or > 2, a candidate containing a newline, "
-         "non-empty correction table, non-ASCII shard.",
+         "non-empty correction table, non-ASCII shard, a document with more than one \\bLIT\\b match.",
     trusted_base=["correspondence harness harness/overlay/index/zz_verif_c02_test.go (+ helpers of zz_verif_c03_test.go): generator, Go oracle "
-                  "(bytes scan for substrings, Go regexp FindAllIndex for regexps)",
+                  "(bytes scan for substrings, Go regexp FindAllIndex for regexps incl. \\bLIT\\b)",
                   "hand-written model coq/Model/Ranges.v tied by differential correspondence; constants runeOffsetFrequency and the "
                   "findOffset read window are regenerated from the source into coq/Generated/RangesConsts.v on every run",
                   "sort.Sort(sortByOffsetSlice) modelled as insertion sort: only the key sequence (fileName, offset, size) is observable and "
                   "the sorted key sequence is unique",
-                  "WHICH candidates an atom produces (all occurrences / engine matches) is C01's model; here they are hypotheses of the theorems",
+                  "WHICH candidates an atom produces (all occurrences / engine matches) is C01's model; here they are hypotheses of the theorems "
+                  "— except for the word fast path (wordMatchTree.matches), whose scan loop is modelled here (Model/Ranges.v word_scan, tied by "
+                  "G_word / G_wordsearch) and proved equal to the successive matches of \\bLIT\\b; that this byte-level definition of a match "
+                  "(occurrence + ASCII word/non-word transition at both ends, text ends non-word) is what the regexp engine computes is tied by the "
+                  "Go oracle (stdlib regexp on the same texts)",
                   "uint32 offsets modelled as nat (sizes < 2^32)"],
     assumptions=["|content| < 2^32 (offsets are uint32 in Go, nat in the model)",
                  "findOffset is called with rune offsets strictly inside the document (candidate starts: both call sites in matchtree.go); the read is clipped to the document, so nothing is assumed about the bytes behind the content section"],
